@@ -35,6 +35,9 @@ def configs(tier):
                 result.append({"preset": preset, "header": 0, "fields": ["ka", "v"], "checks": checks, "family": "both"})
         result.append({"preset": preset, "header": 0, "fields": ["ka", "kb"], "checks": [["u1", "IsUnique", "ka"], ["u2", "IsUnique", "kb"]], "family": "two-unique"})
         result.append({"preset": preset, "header": 0, "fields": ["kt1", "kt2"], "checks": [["u", "IsUnique", "kt1, kt2"]], "family": "unique"})
+        # two fields whose names differ only in case: a rule names exactly the field it spells
+        result.append({"preset": preset, "header": 0, "fields": ["ka", "KA"], "checks": [["u", "IsUnique", "KA"]], "family": "unique"})
+        result.append({"preset": preset, "header": 0, "fields": ["ka", "KA"], "checks": [["d", "DistinctCount", "KA < 2"]], "family": "distinct"})
         # an optional counted field: the empty value is a value like any other
         for rule in ("kind == 1", "kind >= 2", "kind < 2", "kind != 1", "kind <= 0", "kind > 2"):
             result.append({"preset": preset, "header": 0, "fields": ["ka", "kind"], "checks": [["d", "DistinctCount", rule]], "family": "distinct"})
